@@ -44,7 +44,9 @@ fn lockfree_recycle<const MAXS: usize>() {
 /// Same history with each size confined to its own concrete interval (cheaper: the size-class
 /// scan of each call stays inside one or two classes).
 fn lockfree_recycle_in(l1: usize, h1: usize, l2: usize, h2: usize, l3: usize, h3: usize) {
-    let pool = match LockFreeMemoryPool::new(lf_config(4096)) {
+    // arena just large enough for the three requests (a smaller byte array is much cheaper for CBMC)
+    let arena = if h1 + h2 + h3 + 64 <= 512 { 512 } else { 4096 * 8 };
+    let pool = match LockFreeMemoryPool::new(lf_config(arena)) {
         Ok(p) => p,
         Err(e) => { forget(e); return; }
     };
@@ -52,7 +54,7 @@ fn lockfree_recycle_in(l1: usize, h1: usize, l2: usize, h2: usize, l3: usize, h3
     let s2: usize = vany();
     let s3: usize = vany();
     assume(s1 >= l1 && s1 <= h1 && s2 >= l2 && s2 <= h2 && s3 >= l3 && s3 <= h3);
-    let p1 = match pool.allocate(s1) { Ok(p) => p, Err(e) => { forget(e); panic!("4 KiB arena refused a small request") } };
+    let p1 = match pool.allocate(s1) { Ok(p) => p, Err(e) => { forget(e); panic!("arena refused a small request") } };
     unsafe { stamp(p1, s1, 0x11) };
     let r = pool.deallocate(p1, s1);
     assert!(r.is_ok(), "free of a block the pool issued was refused");
@@ -78,7 +80,7 @@ macro_rules! c07_lockfree_recycle {
             unwind: $unwind,
             stubs: [alloc::fmt::format => crate::common::stubs::fmt_format],
             targets: "memory::lockfree_pool::LockFreeMemoryPool::{new, allocate, deallocate, allocate_from_fast_bin, deallocate_to_fast_bin, allocate_new_block, size_to_bin_index, align_size, offset_to_ptr, ptr_to_offset}",
-            bounds: "4 KiB arena, cache alignment/NUMA/stats off; history alloc(s1) free alloc(s2) alloc(s3) with symbolic sizes in 1..=MAXS (instance arg); unwind 66 covers the 64 fast bins built by new() and the 64-entry size-class scan",
+            bounds: "arena of 512 bytes (MAXS <= 144) or 32 KiB, cache alignment/NUMA/stats off; history alloc(s1) free alloc(s2) alloc(s3) with symbolic sizes in 1..=MAXS (instance arg); unwind 66 covers the 64 fast bins built by new() and the 64-entry size-class scan",
             oracle: "live blocks pairwise disjoint, first and last byte of each inside the arena (CBMC pointer checks), contents of a live block unchanged by a later allocation, 8-byte alignment, free of an issued block succeeds",
             body: { lockfree_recycle::<$maxs>() }
         }
@@ -96,7 +98,7 @@ macro_rules! c07_lockfree_class {
             unwind: $unwind,
             stubs: [alloc::fmt::format => crate::common::stubs::fmt_format],
             targets: "memory::lockfree_pool::LockFreeMemoryPool::{new, allocate, deallocate, allocate_from_fast_bin, deallocate_to_fast_bin, allocate_new_block, size_to_bin_index, align_size, offset_to_ptr, ptr_to_offset}",
-            bounds: "4 KiB arena, cache alignment/NUMA/stats off; history alloc(s1) free alloc(s2) alloc(s3) with symbolic sizes s1 in [l1,h1], s2 in [l2,h2], s3 in [l3,h3] (instance args: the six bounds); unwind 66 covers the 64 fast bins built by new() and the 64-entry size-class scan",
+            bounds: "512-byte arena, cache alignment/NUMA/stats off; history alloc(s1) free alloc(s2) alloc(s3) with symbolic sizes s1 in [l1,h1], s2 in [l2,h2], s3 in [l3,h3] (instance args: the six bounds); unwind 66 covers the 64 fast bins built by new() and the 64-entry size-class scan",
             oracle: "live blocks pairwise disjoint, first and last byte of each inside the arena (CBMC pointer checks), contents of a live block unchanged by a later allocation, 8-byte alignment, free of an issued block succeeds",
             body: { lockfree_recycle_in($l1, $h1, $l2, $h2, $l3, $h3) }
         }
